@@ -28,7 +28,7 @@ func registerPW() {
 		Assume: []string{"special files are expected to be skipped", "directories selected by ignore rules are not compared (the statement fixes files)", "unprivileged runs use only modes readable by the uid"},
 		Real:   realCommon, Sim: pwSim}
 	plans["C03"] = &Plan{ID: "C03", Level: "exploration",
-		Legs: []Leg{{World: "pw", Profile: "ignore", Quick: 6000, Weight: 1}},
+		Legs: []Leg{{World: "pw", Profile: "ignore", Quick: 5000, Weight: 2}, {World: "bw", Profile: "rules", Quick: 2500, Weight: 1}},
 		Rule: "each evaluation = one generated tree + rule file (<=8 rules from the documented grammar, patterns built from the tree's own segment names) packed with ignore processing on or off, optionally after history operations in the same process (rule files starting with a negation, other options) and repeated; shipped file/link names are compared both ways with the independent segment-wise matcher; the bundle side is exercised by the BW legs. distinct = scenario hash; non-trivial = has rules/links/history.",
 		Assume: []string{"strict two-way oracle on files and links, not on directory entries", "rule grammar avoids the three '**' corners the statement does not define"},
 		Real:   realCommon, Sim: pwSim}
